@@ -491,6 +491,12 @@ pub fn prop(tier: Tier) -> Prop {
     }),
   }
   parts.push(Part {
+    name: "chains",
+    body: Box::new(body_worlds(Space::chains())),
+    modes: vec![Mode::Full],
+    what: "worlds around a redirect chain of 1-3 hops whose middle hops nothing imports directly (head imported statically / dynamically / type-only, a second importer entering at any hop, terminal TypeScript / JavaScript / missing / failing, optional leaf), enumerated completely",
+  });
+  parts.push(Part {
     name: "fast-check",
     body: Box::new(body_fast_check(2)),
     modes: match tier {
